@@ -4,9 +4,9 @@
 package synth
 
 import (
-	"github.com/rs/zerolog"
 	"bufio"
 	"fmt"
+	"github.com/rs/zerolog"
 	"os"
 	"runtime/debug"
 	"strconv"
